@@ -665,3 +665,31 @@ package uhppote
 //@ func (*uhppote).listen
 //@   params u, p, q, listener
 //@   requires client: u != nil && u.driver != nil && listener != nil
+
+// ---- C17: the client keeps its own copy of the configuration ----------------------------------
+
+// a deep copy: equal value, door names in storage of its own
+//@ func (Device).Clone
+//@   params d
+//@   returns res
+//@   ensures same:  res.Name == d.Name && res.DeviceID == d.DeviceID && res.Address.AddrPort.ip.kind == d.Address.AddrPort.ip.kind &&
+//@                  res.Address.AddrPort.ip.bits == d.Address.AddrPort.ip.bits && res.Address.AddrPort.port == d.Address.AddrPort.port && res.Protocol == d.Protocol
+//@   ensures doors: len(res.Doors) == len(d.Doors) && (forall k int :: 0 <= k && k < len(d.Doors) ==> res.Doors[k] == d.Doors[k])
+//@   ensures own:   fresh(res.Doors) && !sameblock(res.Doors, d.Doors)
+
+// every configured controller is stored as a clone, in a map of the client's own, under its serial number
+//@ func NewUHPPOTE
+//@   params bindAddr, broadcastAddr, listenAddr, timeout, devices, debug
+//@   returns res
+//@   attr result0.dyn = *uhppote.uhppote
+//@   define U = unbox("*uhppote.uhppote", res)
+//@   ensures client: dyntype(res) == typeid("*uhppote.uhppote") && fresh(U) && fresh(U.devices) && U.driver != nil
+//@   ensures addrs:  U.broadcastAddr.AddrPort.ip.kind == broadcastAddr.AddrPort.ip.kind && U.broadcastAddr.AddrPort.ip.bits == broadcastAddr.AddrPort.ip.bits &&
+//@                   U.broadcastAddr.AddrPort.port == broadcastAddr.AddrPort.port
+//@   ensures stored: forall k int :: 0 <= k && k < len(devices) ==> has(U.devices, devices[k].DeviceID)
+//@   ensures own:    forall k int :: 0 <= k && k < len(devices) ==> !sameblock(U.devices[devices[k].DeviceID].Doors, devices[k].Doors)
+//@   loop 1
+//@     invariant idx:    -1 <= rangeindex && rangeindex < len(devices) || (rangeindex == -1 && len(devices) == 0)
+//@     invariant stored: forall k int :: 0 <= k && k <= rangeindex ==> has(uhppote.devices, devices[k].DeviceID)
+//@     invariant own:    forall k int :: 0 <= k && k < len(devices) && has(uhppote.devices, devices[k].DeviceID) ==> !sameblock(uhppote.devices[devices[k].DeviceID].Doors, devices[k].Doors)
+//@     decreases len(devices) - rangeindex
